@@ -1234,6 +1234,8 @@ def _run(ctx):
              'from_dict_multivariate) for all states and inputs')
     ctx.copy_src('Props/C19_gm.v')
     ctx.compile(['Gen_gmctl.v', 'C19_gm.v'])
+    from .. import bivlifegen
+    bivlifegen.hook(ctx)     # Gen_bivlife.v + Props/C14_biv.v (check_fit first on every bivariate query: C14_bridge_query)
     ctx.rule('correspondence: random histories (3..8 events: fit 42% / query 40% (cdf,pdf,ppf,logpdf,sample[,partial]) / to_dict 11% / '
              'get_instance 7%) per object configuration: 8 ScipyModel families (default, seeded; TruncatedGaussian without/with one/both '
              'bounds; GaussianKDE with sample_size 1/5/8/30, bw_method scott/silverman/scalar/invalid, weights), Univariate wrapper '
